@@ -74,6 +74,7 @@ TNext ==
   \/ Is("dropped")     /\ Dropped(ev.cid, ev.tag, ev.reason, ev.ms)
   \/ Is("note")        /\ UNCHANGED bvars
   \/ Is("raw")         /\ UNCHANGED bvars
+  \/ Is("stats")       /\ UNCHANGED bvars
 
 TSpec == TInit /\ [][TNext]_tvars
 
